@@ -14,4 +14,14 @@ fn main() {
     if t.contains(&squeeze("pub fn int_13(vm: &VM, ah: u8)")) && t.contains(&squeeze("pub fn int_21(vm: &mut VM, ah: u8)")) {
         println!("cargo:rustc-cfg=driver_int_fns");
     }
+    // the print reader: handed the machine and the text, it prints (today's shape). A reader of
+    // another shape (one that returns a command for someone else to show) cannot be called with
+    // strings directly; the harness then leaves those direct calls out and says so in the evidence
+    println!("cargo:rustc-check-cfg=cfg(print_reader_takes_vm)");
+    let path = format!("{}/src/driver/print.lalrpop", REPO);
+    println!("cargo:rerun-if-changed={}", path);
+    let g = squeeze(&fs::read_to_string(&path).unwrap_or_default());
+    if g.contains("grammar<'s>(vm:&VM);") || g.contains("grammar(vm:&VM);") {
+        println!("cargo:rustc-cfg=print_reader_takes_vm");
+    }
 }
